@@ -2,7 +2,7 @@
     on the generated text (used by coq/srctie/PickleGenEquiv.v, which is compiled on every run). *)
 From Coq Require Import List ZArith NArith Bool Lia.
 Import ListNotations.
-From DD Require Import Base.PyStr Pickle.Vm Pickle.Bytes Pickle.PickleProofs Pickle.SrcPrims.
+From DD Require Import Base.PyStr Pickle.Vm Pickle.Bytes Pickle.PickleProofs Pickle.BytesProofs Pickle.SrcPrims.
 
 Definition strf (e : pyv) : list pystr := match e with VStr s => [s] | _ => [] end.
 Definition setlike (v : pyv) : bool := match v with VSet _ | VFrozenset _ => true | _ => false end.
@@ -96,4 +96,27 @@ Lemma same_members_b_spec : forall a b, same_members_b a b = true -> forall s, I
 Proof.
   intros a b H s. unfold same_members_b in H. apply andb_true_iff in H. destruct H as [H1 H2].
   rewrite forallb_forall in H1, H2. split; intro Hin; apply mem_str_In; auto.
+Qed.
+
+(* the C15 safety statement for a load that starts from a file object (no emptiness test: Bytes.bytes_run) *)
+Theorem bytes_run_no_forbidden_resolution : forall (w : world) (d : dialect) (bs : list N) out tr,
+  ext_cache_safe_b w = true -> bytes_run w d bs = (out, tr) ->
+  (forall m n, In (EResolve m n) tr -> In (dotted m n) (allow w)) /\
+  (forall e, In e tr -> ev_safe_b (allow w) e = true) /\
+  (forall v, out = Done v -> safe_b (allow w) v = true) /\
+  (forall m n, out = Err (Forbidden m n) -> ~ In (dotted m n) (allow w)).
+Proof.
+  intros w d bs out tr Hg H. unfold bytes_run in H.
+  destruct (vm_run w (bdecode_ops d bs)) as [out0 tr0] eqn:R.
+  pose proof (no_forbidden_resolution_partial w _ out0 tr0 Hg R) as [H1 [H2 [H3 H4]]].
+  assert (Ht : tr = tr0) by (pose proof (finish_trace (bdecode_end d bs) (out0, tr0)) as F; rewrite H in F; exact F).
+  subst tr0. split; [exact H1|]. split; [exact H2|]. split.
+  - intros v E. subst out. apply finish_done in H. destruct H as [E _]. apply (H3 v E).
+  - intros m n E. subst out. apply finish_forbidden in H. destruct H as [E _]. apply (H4 m n E).
+Qed.
+
+Lemma result_of_inv : forall r out tr, result_of r = Some (out, tr) -> out <> Err BadArg -> r = Ret (out, tr).
+Proof.
+  intros r out tr H Hne. destruct r as [x|e]; cbn in H; [inversion H; reflexivity|].
+  destruct e; try discriminate H. inversion H; subst. contradiction Hne. reflexivity.
 Qed.
